@@ -174,9 +174,10 @@ func NewMatcher(trigger Trigger, on string) *Matcher {
 	}
 }
 
-// Match returns true if keyPath matches the On condition.
+// Match returns true if keyPath matches the On condition,
+// i.e. On (with "*" standing for one path element) is a prefix of keyPath.
 func (tm *Matcher) Match(keyPath string) bool {
-	pattern := strings.Replace(tm.On, "*", "[^/]+", -1)
+	pattern := "^" + strings.Replace(tm.On, "*", "[^/]+", -1)
 	matched, _ := regexp.MatchString(pattern, keyPath)
 	return matched
 }
